@@ -1,3 +1,871 @@
-"""placeholder; replaced below"""
+"""Back end F: modular frame / effect analysis ("this operation leaves its argument as it was").
+
+For every function of /repo/partitura (ASTs parsed on this run) a *mutation summary* is computed bottom-up over the
+call graph: which parameters' object graphs the function may write, and which parameters its return value may alias.
+A frame obligation `modifies(f, p) = {}` is discharged when summary(f) does not write p.  The analysis is a
+conservative may-analysis:
+
+  taint levels per local name:  T(p) the value is (part of) p's object graph ;  E(p) a FRESH container whose elements are
+  writes counted: attribute / subscript stores and deletes on T values, augmented assignment on T values, calls of the
+  known container mutators on T receivers, calls of /repo functions and methods (and property getters/setters) whose own
+  summary writes the corresponding parameter, library calls known to write an argument (np.random.shuffle, out=...).
+  fresh: constructor results, literals, comprehensions, copy.deepcopy (fresh and disjoint), list()/sorted()/np.array()
+  (fresh container, shared elements), arithmetic results.
+
+What it does NOT see (declared): writes through reflection (setattr/__dict__: treated as 'writes anything'),
+insertion of empty entries by reading a defaultdict, the Part._number_of_staves cache (declared benign).
+A reported write is a *candidate*: it becomes a VIOLATION only when a native run shows the argument's structural
+fingerprint changed; otherwise the frame is 'undecided' and left to the bounded back end.
+"""
+import ast
+import os
+
+from . import loader
+
+MUTATORS = {"append", "extend", "insert", "remove", "pop", "sort", "clear", "update", "add", "discard", "setdefault",
+            "popitem", "reverse", "__setitem__", "__delitem__", "fill", "resize", "put", "itemset", "partition", "setflags",
+            "popleft", "appendleft"}
+FRESH_CALLS = {"deepcopy", "len", "int", "float", "str", "bool", "min", "max", "sum", "abs", "isinstance", "print", "any", "all",
+               "round", "range", "type", "id", "hash", "repr", "format", "ord", "chr", "divmod", "pow", "issubclass", "callable",
+               "hasattr", "open", "Fraction", "complex", "bytes", "bytearray", "object", "super", "vars_", "input", "locals"}
+SHALLOW_CALLS = {"list", "sorted", "tuple", "set", "dict", "reversed", "enumerate", "zip", "iter", "filter", "map", "frozenset",
+                 "copy", "array", "OrderedDict", "defaultdict", "chain", "next", "column_stack", "vstack", "hstack", "concatenate",
+                 "stack", "unique", "fromiter", "product", "groupby"}
+ALIAS_CALLS = {"asarray", "ascontiguousarray", "atleast_1d", "atleast_2d", "squeeze", "ravel", "reshape", "view", "getattr", "cast"}
+LIB_MODULES = {"np", "numpy", "math", "re", "os", "sys", "warnings", "itertools", "collections", "scipy", "mido", "etree", "lxml",
+               "copy", "json", "logging", "LOGGER", "string", "operator", "functools", "fractions", "difflib", "csv", "zipfile",
+               "tempfile", "shutil", "subprocess", "urllib", "io", "glob", "pkg_resources", "platform", "time", "random", "types"}
+LIB_ARG_MUTATORS = {("np.random", "shuffle"): 0, ("random", "shuffle"): 0, ("np", "put"): 0, ("np", "copyto"): 0, ("np", "place"): 0,
+                    ("np", "putmask"): 0, ("np", "fill_diagonal"): 0, ("heapq", "heappush"): 0, ("heapq", "heappop"): 0}
+BENIGN_ATTRS = {"_number_of_staves"}
+BUILTIN_CONTAINER_METHODS = MUTATORS | {"copy", "get", "items", "values", "keys", "index", "count", "join", "split", "strip", "lower", "upper",
+                                        "format", "startswith", "endswith", "replace", "astype", "tolist", "sum", "mean", "min", "max", "any",
+                                        "all", "round", "flatten", "ravel", "reshape", "argsort", "argmax", "argmin", "cumsum", "item", "find",
+                                        "encode", "decode", "search", "match", "group", "groups", "union", "intersection", "difference"}
+_IMM = {}
+
+
+def immutable_attrs():
+    """attribute names that only ever hold immutable values (int/float/str/bool/None/Fraction/tuples of those) on the objects
+    of generated scores and performances - learnt from the REAL classes on every run; an attribute load of such a name yields
+    a value that cannot be written through.  Recorded as an assumption of every frame verdict."""
+    if "v" in _IMM:
+        return _IMM["v"]
+    import numbers
+    from fractions import Fraction
+    seen_mut, seen_imm = set(), set()
+
+    def imm(v, d=0):
+        if v is None or isinstance(v, (str, bytes, bool, numbers.Number, Fraction)):
+            return True
+        if isinstance(v, (tuple, frozenset)) and d < 3:
+            return all(imm(x, d + 1) for x in v)
+        return False
+    try:
+        from gen import scores as G
+        objs = []
+        for name, mk in G.all_scores("quick"):
+            sc = mk()
+            for p in sc.parts:
+                objs.append(p)
+                objs.extend(p._points)
+                objs.extend(p.iter_all())
+        for perf in G.all_performances("quick"):
+            objs.append(perf)
+            objs.extend(perf.performedparts)
+        import inspect
+        for o in objs:
+            for k, v in getattr(o, "__dict__", {}).items():
+                (seen_imm if imm(v) else seen_mut).add(k)
+            for k, d in inspect.getmembers(type(o), lambda x: isinstance(x, property)):
+                if k in ("segments",):
+                    continue
+                try:
+                    v = getattr(o, k)
+                except Exception:
+                    continue
+                (seen_imm if imm(v) else seen_mut).add(k)
+    except Exception:
+        pass
+    _IMM["v"] = seen_imm - seen_mut
+    return _IMM["v"]
+
+
+class Func:
+    def __init__(self, module, qual, node, cls=None):
+        self.module, self.qual, self.node, self.cls = module, qual, node, cls
+        a = node.args
+        self.params = [x.arg for x in a.posonlyargs + a.args] + ([a.vararg.arg] if a.vararg else []) + [x.arg for x in a.kwonlyargs] + (
+            [a.kwarg.arg] if a.kwarg else [])
+        self.pos = [x.arg for x in a.posonlyargs + a.args]
+        self.mutates = {}  # param -> witness (list of strings)
+        self.returns = set()  # (param, level)
+        self.unknown = {}  # param -> reason
+        self.callable_params = {}  # parameter that is CALLED inside -> parameters whose values are passed to it
+        self.is_property = False
+        self.is_setter = False
+        self.is_static = False
+
+    @property
+    def name(self):
+        return self.module + "." + self.qual
+
+
+class Program:
+    def __init__(self, root=None):
+        self.root = root or os.path.join(loader.REPO, "partitura")
+        self.funcs = {}  # full name -> Func
+        self.by_module = {}  # module -> {name: Func or ("class", clsname)}
+        self.classes = {}  # clsname -> {"module":..., "bases":[names], "methods": {name: Func}, "props": {name: Func}, "setters": {...}}
+        self.imports = {}  # module -> {alias: (module, name)}
+        self._load()
+
+    def _load(self):
+        for dp, dn, fn in os.walk(self.root):
+            for f in sorted(fn):
+                if not f.endswith(".py"):
+                    continue
+                path = os.path.join(dp, f)
+                mod = "partitura" + path[len(self.root):-3].replace(os.sep, ".")
+                if mod.endswith(".__init__"):
+                    mod = mod[:-9]
+                try:
+                    tree = ast.parse(open(path, "rb").read(), filename=path)
+                except SyntaxError:
+                    continue
+                self.by_module[mod] = {}
+                self.imports[mod] = {}
+                self._scan(mod, tree)
+
+    def _scan(self, mod, tree):
+        for st in tree.body:
+            if isinstance(st, ast.FunctionDef):
+                fn = Func(mod, st.name, st)
+                self.funcs[fn.name] = fn
+                self.by_module[mod][st.name] = fn  # later definition wins, as in Python
+            elif isinstance(st, ast.ClassDef):
+                info = {"module": mod, "bases": [self._basename(b) for b in st.bases], "methods": {}, "props": {}, "setters": {}}
+                for m in st.body:
+                    if isinstance(m, ast.FunctionDef):
+                        fn = Func(mod, st.name + "." + m.name, m, st.name)
+                        decos = [self._basename(d) for d in m.decorator_list]
+                        if "property" in decos:
+                            fn.is_property = True
+                            info["props"][m.name] = fn
+                        elif any(d.endswith("setter") for d in decos if d):
+                            fn.is_setter = True
+                            fn.qual += ".setter"
+                            info["setters"][m.name] = fn
+                        else:
+                            if "staticmethod" in decos:
+                                fn.is_static = True
+                            info["methods"][m.name] = fn
+                        self.funcs[fn.name] = fn
+                self.classes[st.name] = info  # later definition wins
+                self.by_module[mod][st.name] = ("class", st.name)
+            elif isinstance(st, ast.ImportFrom) and st.module:
+                for a in st.names:
+                    self.imports[mod][a.asname or a.name] = (st.module, a.name)
+            elif isinstance(st, ast.Import):
+                for a in st.names:
+                    self.imports[mod][(a.asname or a.name).split(".")[0]] = (a.name, None)
+            elif isinstance(st, (ast.If, ast.Try)):
+                sub = ast.Module(body=[x for x in ast.iter_child_nodes(st) if isinstance(x, ast.stmt)], type_ignores=[])
+                self._scan(mod, sub)
+
+    @staticmethod
+    def _basename(n):
+        if isinstance(n, ast.Name):
+            return n.id
+        if isinstance(n, ast.Attribute):
+            return n.attr
+        if isinstance(n, ast.Call):
+            return Program._basename(n.func)
+        return ""
+
+    def mro(self, cname, seen=None):
+        seen = seen or []
+        if cname in seen or cname not in self.classes:
+            return seen
+        seen.append(cname)
+        for b in self.classes[cname]["bases"]:
+            self.mro(b, seen)
+        return seen
+
+    def subclasses(self, cname):
+        return [c for c in self.classes if cname in self.mro(c)]
+
+    def lookup_member(self, cname, name, kind):
+        for c in self.mro(cname):
+            d = self.classes[c][kind]
+            if name in d:
+                return d[name]
+        return None
+
+    def members_named(self, name, kind, cls=None):
+        """candidates for x.name when the class of x is `cls` (or unknown): dynamic dispatch included"""
+        out = []
+        if cls is not None and cls in self.classes:
+            cands = set(self.subclasses(cls)) | {cls}
+            for c in cands:
+                f = self.lookup_member(c, name, kind)
+                if f is not None and f not in out:
+                    out.append(f)
+            return out
+        for c, info in self.classes.items():
+            if name in info[kind]:
+                out.append(info[kind][name])
+        return out
+
+    def resolve_name(self, mod, name, depth=0):
+        """module-level name -> Func | ('class', name) | ('lib', alias) | None"""
+        d = self.by_module.get(mod, {})
+        if name in d:
+            return d[name]
+        imp = self.imports.get(mod, {}).get(name)
+        if imp is not None and depth < 4:
+            m, n = imp
+            if m.startswith("partitura"):
+                if n is None:
+                    return ("module", m)
+                r = self.resolve_name(m, n, depth + 1)
+                if r is not None:
+                    return r
+                if m + "." + n in self.by_module:
+                    return ("module", m + "." + n)
+                return None
+            return ("lib", name)
+        # star imports from partitura.utils.globals etc.
+        return None
+
+
+T, E = 0, 1  # nesting depth: 0 = (part of) the parameter's object graph, k = fresh containers nested k deep around it
+
+
+CAP = 4
+
+
+def up(ts, n=1):
+    """wrap in n fresh containers"""
+    return {(p, k, min(w + n, CAP)) for (p, k, w) in ts}
+
+
+def down(ts):
+    """element access: unwrap a fresh layer if there is one, otherwise go one dereference deeper into the parameter"""
+    return {(p, k, w - 1) if w > 0 else (p, min(k + 1, CAP), 0) for (p, k, w) in ts}
+
+
+def attr(ts):
+    """attribute access: what a fresh object holds / stays inside the parameter's graph"""
+    return {(p, k, w - 1) if w > 0 else (p, k, 0) for (p, k, w) in ts}
+
+
+def flat(ts):
+    return {(p, k, 0) for (p, k, w) in ts}
+
+
+def shallow(ts):
+    """a fresh container over the elements (list(x), sorted(x), np.array(x), x.copy())"""
+    return {(p, min(k + 1, CAP), 1) if w == 0 else (p, k, w) for (p, k, w) in ts}
+
+
+def norm(ts):
+    return set(ts)
+
+
+def root_and_depth(node):
+    s = 0
+    while isinstance(node, ast.Subscript):
+        node = node.value
+        s += 1
+    if isinstance(node, ast.Name):
+        return node.id, s
+    return None, 0
+
+
+class Analyzer:
+    def __init__(self, prog):
+        self.p = prog
+        self.changed = False
+
+    def run(self, max_iter=12):
+        for it in range(max_iter):
+            self.changed = False
+            for fn in list(self.p.funcs.values()):
+                self.analyze(fn)
+            if not self.changed:
+                return it + 1
+        return max_iter
+
+    # --------------------------------------------------------------------------------
+    def analyze(self, fn):
+        env = {}
+        types = {}
+        for prm in fn.params:
+            env[prm] = {(prm, 0, 0)}
+        if fn.cls and fn.pos and not fn.is_static:
+            types[fn.pos[0]] = fn.cls
+        ctx = {"fn": fn, "env": env, "types": types}
+        self.block(fn.node.body, ctx)
+
+    def mut(self, ctx, taints, node, what, chain=None, extra_depth=0):
+        """a write through a value with no fresh layer left (w == 0) is a write into parameter p, k dereferences deep"""
+        fn = ctx["fn"]
+        for (prm, k, w) in taints:
+            if w != 0:
+                continue
+            kk = min(k + extra_depth, CAP)
+            d = fn.mutates.setdefault(prm, {})
+            if kk not in d:
+                d[kk] = (chain or []) + ["%s:%d %s" % (fn.name, getattr(node, "lineno", 0), what)]
+                self.changed = True
+
+    def unk(self, ctx, taints, node, what):
+        fn = ctx["fn"]
+        for (prm, k, w) in taints:
+            if w == 0 and prm not in fn.unknown:
+                fn.unknown[prm] = "%s:%d %s" % (fn.name, getattr(node, "lineno", 0), what)
+                self.changed = True
+
+    def ret(self, ctx, taints):
+        fn = ctx["fn"]
+        for t in taints:
+            if t not in fn.returns:
+                fn.returns.add(t)
+                self.changed = True
+
+    def bind(self, ctx, target, taints, typ=None):
+        env = ctx["env"]
+        if isinstance(target, ast.Name):
+            env[target.id] = norm(taints)  # strong update; branches are joined in stmt()
+            if typ:
+                ctx["types"][target.id] = typ
+        elif isinstance(target, (ast.Tuple, ast.List)):
+            el = down(taints)
+            for e in target.elts:
+                self.bind(ctx, e.value if isinstance(e, ast.Starred) else e, el)
+        elif isinstance(target, ast.Attribute):
+            base = self.expr(target.value, ctx)
+            if target.attr not in BENIGN_ATTRS:
+                self.mut(ctx, base, target, "store to attribute .%s" % target.attr)
+            # property setter with side effects on the assigned value
+            cls = self.type_of(target.value, ctx)
+            for s in self.p.members_named(target.attr, "setters", cls):
+                self.apply_summary(ctx, s, [base, taints], target, via="setter .%s" % target.attr)
+        elif isinstance(target, ast.Subscript):
+            base = self.expr(target.value, ctx)
+            self.expr(target.slice, ctx)
+            self.mut(ctx, base, target, "item assignment")
+            rname, sdepth = root_and_depth(target)
+            if rname is not None and taints:
+                env[rname] = env.get(rname, set()) | up(taints, sdepth)
+        elif isinstance(target, ast.Starred):
+            self.bind(ctx, target.value, taints)
+
+    def type_of(self, node, ctx):
+        if isinstance(node, ast.Name):
+            return ctx["types"].get(node.id)
+        return None
+
+    def block(self, stmts, ctx):
+        for st in stmts:
+            self.stmt(st, ctx)
+
+    def branches(self, ctx, blocks, loop=False):
+        """run alternative blocks from the same environment and join (union) the results"""
+        env0 = {k: set(v) for k, v in ctx["env"].items()}
+        outs = []
+        for blk in blocks:
+            ctx["env"] = {k: set(v) for k, v in env0.items()}
+            self.block(blk, ctx)
+            if loop:
+                self.block(blk, ctx)  # second iteration sees the effects of the first
+            outs.append(ctx["env"])
+        joined = {k: set(v) for k, v in env0.items()} if loop or len(blocks) < 2 else {}
+        for e in outs:
+            for k, v in e.items():
+                joined[k] = norm(joined.get(k, set()) | v)
+        ctx["env"] = joined
+
+    def stmt(self, st, ctx):
+        if isinstance(st, ast.Assign):
+            v = self.expr(st.value, ctx)
+            typ = self.ctor_type(st.value, ctx)
+            for t in st.targets:
+                self.bind(ctx, t, v, typ)
+        elif isinstance(st, ast.AnnAssign):
+            if st.value is not None:
+                self.bind(ctx, st.target, self.expr(st.value, ctx))
+        elif isinstance(st, ast.AugAssign):
+            v = self.expr(st.value, ctx)
+            if isinstance(st.target, ast.Name):
+                cur = ctx["env"].get(st.target.id, set())
+                self.mut(ctx, cur, st, "augmented assignment to %s (in place if the value is a list/array)" % st.target.id)
+                ctx["env"][st.target.id] = norm(cur | up(v))
+            else:
+                self.bind(ctx, st.target, v)
+        elif isinstance(st, ast.Expr):
+            self.expr(st.value, ctx)
+        elif isinstance(st, ast.Return):
+            if st.value is not None:
+                self.ret(ctx, self.expr(st.value, ctx))
+        elif isinstance(st, (ast.For, ast.AsyncFor)):
+            it = self.expr(st.iter, ctx)
+            self.bind(ctx, st.target, down(it))
+            self.branches(ctx, [st.body], loop=True)
+            self.block(st.orelse, ctx)
+        elif isinstance(st, ast.While):
+            self.expr(st.test, ctx)
+            self.branches(ctx, [st.body], loop=True)
+            self.block(st.orelse, ctx)
+        elif isinstance(st, ast.If):
+            self.expr(st.test, ctx)
+            self.narrow(st.test, ctx)
+            self.branches(ctx, [st.body, st.orelse])
+        elif isinstance(st, ast.With):
+            for item in st.items:
+                v = self.expr(item.context_expr, ctx)
+                if item.optional_vars is not None:
+                    self.bind(ctx, item.optional_vars, v)
+            self.block(st.body, ctx)
+        elif isinstance(st, ast.Try):
+            self.branches(ctx, [st.body + st.orelse] + [h.body for h in st.handlers] + [[]])
+            self.block(st.finalbody, ctx)
+        elif isinstance(st, ast.Delete):
+            for t in st.targets:
+                if isinstance(t, (ast.Attribute, ast.Subscript)):
+                    self.mut(ctx, self.expr(t.value, ctx), t, "del of attribute/item")
+        elif isinstance(st, ast.FunctionDef):
+            # nested function: analysed in the enclosing environment; its writes are attributed to the enclosing function
+            sub = Func(ctx["fn"].module, ctx["fn"].qual + ".<locals>." + st.name, st)
+            nenv = dict(ctx["env"])
+            for prm in sub.params:
+                nenv[prm] = set()
+            nctx = {"fn": ctx["fn"], "env": nenv, "types": dict(ctx["types"]), "nested": sub}
+            rets_before = set(ctx["fn"].returns)
+            for _ in range(2):
+                self.block(st.body, nctx)
+            ctx.setdefault("locals_fn", {})[st.name] = sub
+        elif isinstance(st, ast.Assert):
+            self.expr(st.test, ctx)
+        elif isinstance(st, ast.Raise):
+            if st.exc is not None:
+                self.expr(st.exc, ctx)
+
+    def narrow(self, test, ctx):
+        # isinstance(x, Cls) narrows the receiver class for method resolution
+        if isinstance(test, ast.Call) and isinstance(test.func, ast.Name) and test.func.id == "isinstance" and len(test.args) == 2:
+            if isinstance(test.args[0], ast.Name):
+                c = Program._basename(test.args[1])
+                if c in self.p.classes:
+                    ctx["types"][test.args[0].id] = c
+
+    def ctor_type(self, node, ctx):
+        if isinstance(node, ast.Call):
+            n = Program._basename(node.func)
+            if n in self.p.classes:
+                return n
+        return None
+
+    # -------------------------------------------------------------------------------- expressions -> taints
+    def expr(self, n, ctx):
+        if n is None:
+            return set()
+        env = ctx["env"]
+        if isinstance(n, ast.Name):
+            return set(env.get(n.id, set()))
+        if isinstance(n, ast.Constant):
+            return set()
+        if isinstance(n, ast.Attribute):
+            base = self.expr(n.value, ctx)
+            if isinstance(n.value, ast.Name) and n.value.id in LIB_MODULES and not base:
+                return set()
+            if n.attr in immutable_attrs():
+                out = set()
+            else:
+                out = attr(base)
+            if base:
+                cls = self.type_of(n.value, ctx)
+                for g in self.p.members_named(n.attr, "props", cls):
+                    out |= self.apply_summary(ctx, g, [base], n, via="property .%s" % n.attr)
+            return out
+        if isinstance(n, ast.Subscript):
+            base = self.expr(n.value, ctx)
+            self.expr(n.slice, ctx)
+            return down(base)
+        if isinstance(n, ast.Slice):
+            for x in (n.lower, n.upper, n.step):
+                self.expr(x, ctx)
+            return set()
+        if isinstance(n, (ast.Tuple, ast.List, ast.Set)):
+            out = set()
+            for e in n.elts:
+                out |= up(self.expr(e.value if isinstance(e, ast.Starred) else e, ctx))
+            return out
+        if isinstance(n, ast.Dict):
+            out = set()
+            for k, v in zip(n.keys, n.values):
+                if k is not None:
+                    self.expr(k, ctx)
+                out |= up(self.expr(v, ctx))
+            return out
+        if isinstance(n, (ast.ListComp, ast.SetComp, ast.GeneratorExp, ast.DictComp)):
+            for g in n.generators:
+                it = self.expr(g.iter, ctx)
+                self.bind(ctx, g.target, down(it))
+                for c in g.ifs:
+                    self.expr(c, ctx)
+            if isinstance(n, ast.DictComp):
+                self.expr(n.key, ctx)
+                el = self.expr(n.value, ctx)
+            else:
+                el = self.expr(n.elt, ctx)
+            return up(el)
+        if isinstance(n, ast.BinOp):
+            a = self.expr(n.left, ctx) | self.expr(n.right, ctx)
+            if isinstance(n.op, (ast.Add, ast.Mult, ast.BitOr, ast.BitAnd)):
+                return shallow(a)  # list concatenation / repetition, set union: fresh container, shared elements
+            return set()  # arithmetic: a new number / a new array
+        if isinstance(n, ast.UnaryOp):
+            self.expr(n.operand, ctx)
+            return set()
+        if isinstance(n, ast.BoolOp):
+            out = set()
+            for v in n.values:
+                out |= self.expr(v, ctx)
+            return out
+        if isinstance(n, ast.Compare):
+            self.expr(n.left, ctx)
+            for c in n.comparators:
+                self.expr(c, ctx)
+            return set()
+        if isinstance(n, ast.IfExp):
+            self.expr(n.test, ctx)
+            return self.expr(n.body, ctx) | self.expr(n.orelse, ctx)
+        if isinstance(n, ast.Call):
+            return self.call(n, ctx)
+        if isinstance(n, (ast.JoinedStr, ast.FormattedValue)):
+            for v in ast.iter_child_nodes(n):
+                if isinstance(v, ast.expr):
+                    self.expr(v, ctx)
+            return set()
+        if isinstance(n, ast.Lambda):
+            return set()
+        if isinstance(n, ast.Starred):
+            return self.expr(n.value, ctx)
+        if isinstance(n, (ast.Yield, ast.YieldFrom)):
+            if n.value is not None:
+                self.ret(ctx, up(self.expr(n.value, ctx)) if isinstance(n, ast.Yield) else self.expr(n.value, ctx))
+            return set()
+        if isinstance(n, ast.NamedExpr):
+            v = self.expr(n.value, ctx)
+            self.bind(ctx, n.target, v)
+            return v
+        if isinstance(n, ast.Await):
+            return self.expr(n.value, ctx)
+        return set()
+
+    def apply_summary(self, ctx, callee, arg_taints, node, via="call"):
+        """arg_taints: list aligned with callee.pos (positional), or dict name->taints.  returns result taints"""
+        out = set()
+        if isinstance(arg_taints, list):
+            amap = {callee.pos[i]: t for i, t in enumerate(arg_taints) if i < len(callee.pos)}
+            extra = [t for i, t in enumerate(arg_taints) if i >= len(callee.pos)]
+            if extra and callee.node.args.vararg:
+                amap[callee.node.args.vararg.arg] = set().union(*extra)
+        else:
+            amap = arg_taints
+        for prm, kd in list(callee.mutates.items()):
+            for kc, wit in list(kd.items()):
+                for (p, ka, wa) in amap.get(prm, set()):
+                    if kc >= wa:  # the write goes through all fresh layers of the argument and lands in the caller's parameter
+                        self.mut(ctx, {(p, min(ka + kc - wa, CAP), 0)}, node, "%s %s writes its parameter '%s'" % (via, callee.name, prm), chain=list(wit))
+        for prm, why in list(callee.unknown.items()):
+            ts = amap.get(prm, set())
+            if ts:
+                self.unk(ctx, ts, node, "%s %s has unresolved effects on '%s' (%s)" % (via, callee.name, prm, why))
+        for cp, passed in list(callee.callable_params.items()):
+            ts = set()
+            for prm in passed:
+                for (p, k, w) in amap.get(prm, set()):
+                    ts.add((p, min(k + 1, CAP), 0))  # the callback receives elements reached from the argument
+                    ts.add((p, k, 0))
+            if not ts:
+                continue
+            actual = self.actual_node(callee, node, cp)
+            if isinstance(actual, ast.Lambda):
+                saved = dict(ctx["env"])
+                for a in actual.args.args:
+                    ctx["env"][a.arg] = set(ts)
+                self.expr(actual.body, ctx)
+                ctx["env"] = saved
+            elif isinstance(actual, ast.Name) and isinstance(self.p.resolve_name(ctx["fn"].module, actual.id), Func):
+                g = self.p.resolve_name(ctx["fn"].module, actual.id)
+                self.apply_summary(ctx, g, [set(ts) for _ in g.pos], node, via="callback")
+            elif actual is None and cp in [a.arg for a in callee.node.args.args[-len(callee.node.args.defaults or []):]]:
+                pass  # default value of the callable parameter (a library function / None)
+            else:
+                self.unk(ctx, ts, node, "%s %s calls its parameter '%s' (callback not resolvable here)" % (via, callee.name, cp))
+        for (prm, kr, wr) in list(callee.returns):
+            for (p, ka, wa) in amap.get(prm, set()):
+                if kr <= wa:
+                    out.add((p, ka, min(wa - kr + wr, CAP)))
+                else:
+                    out.add((p, min(ka + kr - wa, CAP), wr))
+        return out
+
+    def call(self, n, ctx):
+        env = ctx["env"]
+        args = [self.expr(a.value if isinstance(a, ast.Starred) else a, ctx) for a in n.args]
+        kw = {k.arg: self.expr(k.value, ctx) for k in n.keywords}
+        allargs = set().union(*args, *kw.values()) if (args or kw) else set()
+        f = n.func
+        fn = ctx["fn"]
+        if "out" in kw and kw["out"]:
+            self.mut(ctx, kw["out"], n, "library call with out= argument")
+        if isinstance(f, ast.Name):
+            name = f.id
+            if name in ctx.get("locals_fn", {}):
+                sub = ctx["locals_fn"][name]
+                # nested function body was analysed in the enclosing environment with untainted parameters: re-run with these arguments
+                nenv = dict(env)
+                for i, prm in enumerate(sub.pos):
+                    nenv[prm] = set(args[i]) if i < len(args) else kw.get(prm, set())
+                nctx = {"fn": fn, "env": nenv, "types": dict(ctx["types"]), "locals_fn": ctx.get("locals_fn", {})}
+                before = set(fn.returns)
+                depth = ctx.get("depth", 0)
+                if depth < 3:
+                    nctx["depth"] = depth + 1
+                    rets = set()
+                    saved = fn.returns
+                    fn.returns = set()
+                    self.block(sub.node.body, nctx)
+                    rets = fn.returns
+                    fn.returns = saved
+                    return rets
+                return flat(allargs)
+            if name in fn.params and name in env and not ctx.get("nested"):
+                # a callable PARAMETER: resolved at each call site of this function (higher-order summary)
+                cp = fn.callable_params.setdefault(name, set())
+                new = {p for (p, k, w) in allargs} - cp
+                if new:
+                    cp |= new
+                    self.changed = True
+                return flat(allargs)
+            if name in env and name not in self.p.by_module.get(fn.module, {}):
+                # a local variable holding a callable
+                self.unk(ctx, allargs, n, "call of local callable %s" % name)
+                return flat(allargs)
+            if name in ("setattr", "delattr"):
+                if args:
+                    self.mut(ctx, args[0], n, "%s()" % name)
+                return set()
+            if name in ("vars", "globals"):
+                return flat(allargs)
+            if name in FRESH_CALLS:
+                return set()
+            if name in ("zip", "enumerate"):
+                return up(shallow(allargs))  # iterable of fresh tuples around the elements
+            if name in SHALLOW_CALLS:
+                return shallow(allargs)
+            if name in ALIAS_CALLS:
+                return set(args[0]) if args else set()
+            r = self.p.resolve_name(fn.module, name)
+            if isinstance(r, Func):
+                amap = self.argmap(r, args, kw)
+                return self.apply_summary(ctx, r, amap, n)
+            if isinstance(r, tuple) and r[0] == "class":
+                init = self.p.lookup_member(r[1], "__init__", "methods")
+                if init is not None:
+                    amap = self.argmap(init, [set()] + args, kw)
+                    self.apply_summary(ctx, init, amap, n, via="constructor")
+                return up(allargs)
+            if isinstance(r, tuple) and r[0] == "lib":
+                return set()  # trusted: a library call outside the container list returns a value that does not alias its arguments
+            # unresolved global (star import / builtin exception class / unknown)
+            if name and name[0].isupper():
+                return set()
+            cands = [x for x in self.p.funcs.values() if x.qual == name]
+            if cands:
+                out = set()
+                for c in cands:
+                    out |= self.apply_summary(ctx, c, self.argmap(c, args, kw), n)
+                return out
+            return set()
+        if isinstance(f, ast.Attribute):
+            mname = f.attr
+            # library module function: np.xxx(...), copy.deepcopy(...)
+            root = f.value
+            chain = []
+            while isinstance(root, ast.Attribute):
+                chain.append(root.attr)
+                root = root.value
+            if isinstance(root, ast.Name) and root.id not in env:
+                rr = self.p.resolve_name(fn.module, root.id)
+                if root.id in LIB_MODULES or (isinstance(rr, tuple) and rr[0] == "lib"):
+                    key = (".".join([root.id] + list(reversed(chain))), mname)
+                    if key in LIB_ARG_MUTATORS and args:
+                        self.mut(ctx, args[LIB_ARG_MUTATORS[key]], n, "library call %s.%s writes its argument" % key)
+                    if mname == "deepcopy" or mname in FRESH_CALLS:
+                        return set()
+                    if mname in ALIAS_CALLS:
+                        return set(args[0]) if args else set()
+                    if mname in SHALLOW_CALLS:
+                        return shallow(allargs)
+                    return set()
+                if isinstance(rr, tuple) and rr[0] == "module":
+                    tgt = self.p.resolve_name(rr[1], mname) if not chain else None
+                    if isinstance(tgt, Func):
+                        return self.apply_summary(ctx, tgt, self.argmap(tgt, args, kw), n)
+                    if isinstance(tgt, tuple) and tgt[0] == "class":
+                        init = self.p.lookup_member(tgt[1], "__init__", "methods")
+                        if init is not None:
+                            self.apply_summary(ctx, init, self.argmap(init, [set()] + args, kw), n, via="constructor")
+                        return up(allargs)
+                    return up(allargs)
+                if isinstance(rr, tuple) and rr[0] == "class":
+                    # Class.method(...) / classmethod constructors
+                    m = self.p.lookup_member(rr[1], mname, "methods")
+                    if m is not None:
+                        return self.apply_summary(ctx, m, self.argmap(m, ([] if m.is_static else [set()]) + args, kw), n)
+                    return up(allargs)
+            recv = self.expr(f.value, ctx)
+            if isinstance(f.value, ast.Call) and isinstance(f.value.func, ast.Name) and f.value.func.id == "super":
+                cls = fn.cls
+                out = set()
+                if cls:
+                    for b in self.p.mro(cls)[1:]:
+                        m = self.p.classes[b]["methods"].get(mname)
+                        if m is not None:
+                            selft = env.get(fn.pos[0], set()) if fn.pos else set()
+                            out |= self.apply_summary(ctx, m, self.argmap(m, [selft] + args, kw), n)
+                            break
+                return out
+            out = set()
+            if mname in MUTATORS:
+                self.mut(ctx, recv, n, "call of container mutator .%s()" % mname)
+                if mname in ("pop", "setdefault", "popitem"):
+                    out |= down(recv)
+                # a tainted value stored into a (fresh) container makes that container hold it
+                rname, sdepth = root_and_depth(f.value)
+                if rname is not None and mname in ("append", "add", "insert", "extend", "update", "setdefault", "appendleft"):
+                    add = up(allargs, sdepth + 1) if mname not in ("extend", "update") else (up(allargs, sdepth) if sdepth else set(allargs))
+                    if add:
+                        env[rname] = env.get(rname, set()) | add
+            if mname == "__setattr__" or mname == "__dict__":
+                self.mut(ctx, recv, n, "reflection")
+            cls = self.type_of(f.value, ctx)
+            if cls is None and mname in BUILTIN_CONTAINER_METHODS:
+                cands = []  # assumption (reported): a receiver with no inferred /repo class is a builtin container / ndarray here
+            else:
+                cands = self.p.members_named(mname, "methods", cls) if recv or cls else []
+            if cands and (recv or allargs):
+                for m in cands:
+                    out |= self.apply_summary(ctx, m, self.argmap(m, ([] if m.is_static else [recv]) + args, kw), n,
+                                              via="method call .%s() ->" % mname)
+                return out
+            if mname in ("copy", "astype", "tolist", "flatten", "items", "values", "keys", "get", "view", "ravel", "reshape", "T",
+                         "transpose", "squeeze", "iter_all", "__iter__", "__getitem__", "most_common", "elements"):
+                if mname == "astype":
+                    return out  # a new numeric/string array: holds no references
+                if mname in ("copy", "tolist", "flatten"):
+                    return out | shallow(recv)
+                if mname == "items":
+                    return out | up(shallow(recv))
+                return out | set(recv) | up(allargs)
+            # unknown method on a tainted receiver: result may alias, arguments may be stored
+            return out | set(recv) | up(allargs)
+        # call of a computed callable
+        ft = self.expr(f, ctx)
+        self.unk(ctx, allargs | ft, n, "call of computed callable")
+        return flat(allargs)
+
+    @staticmethod
+    def actual_node(callee, call, prm):
+        if not isinstance(call, ast.Call):
+            return None
+        for k in call.keywords:
+            if k.arg == prm:
+                return k.value
+        if prm in callee.pos:
+            i = callee.pos.index(prm)
+            if callee.cls and not callee.is_static and isinstance(call.func, ast.Attribute):
+                i -= 1
+            if 0 <= i < len(call.args):
+                return call.args[i]
+        return None
+
+    @staticmethod
+    def argmap(callee, args, kw):
+        amap = {}
+        for i, t in enumerate(args):
+            if i < len(callee.pos):
+                amap[callee.pos[i]] = set(t)
+            elif callee.node.args.vararg:
+                amap.setdefault(callee.node.args.vararg.arg, set()).update(t)
+        for k, t in kw.items():
+            if k in callee.params:
+                amap[k] = amap.get(k, set()) | set(t)
+            elif callee.node.args.kwarg:
+                amap.setdefault(callee.node.args.kwarg.arg, set()).update(t)
+        return amap
+
+
+_cache = {}
+
+
+def summaries():
+    if "prog" not in _cache:
+        prog = Program()
+        an = Analyzer(prog)
+        iters = an.run()
+        _cache["prog"] = prog
+        _cache["iters"] = iters
+    return _cache["prog"]
+
+
+def find_func(prog, dotted):
+    """'partitura.io.exportmusicxml.save_musicxml' / 'partitura.score.Part.note_array' -> Func"""
+    if dotted in prog.funcs:
+        return prog.funcs[dotted]
+    for k, f in prog.funcs.items():
+        if k == dotted or k == dotted + ".getter":
+            return f
+    return None
+
+
 def run(frames, pid):
-    return []
+    """frames: list of {target, param, modifies(list, must be []), confirm: callable() -> (changed: bool, description) or None}"""
+    import time
+    out = []
+    t0 = time.time()
+    prog = summaries()
+    for fr in frames:
+        tgt, prm = fr["target"], fr["param"]
+        name = "%s/%s/frame/%s_not_modified" % (pid, tgt.replace("partitura.", ""), prm)
+        f = find_func(prog, tgt)
+        res = {"name": name, "target": tgt, "trusted": ["library calls (numpy, scipy, lxml, mido, re) do not write partitura objects unless listed in LIB_ARG_MUTATORS / out="]}
+        if f is None:
+            res.update(status="undecided", reason="contract cannot be applied: %s not found in the source tree" % tgt)
+        elif prm in f.mutates:
+            kmin = min(f.mutates[prm])
+            wit = f.mutates[prm][kmin]
+            confirm = fr.get("confirm")
+            native = None
+            confirmed = False
+            if confirm is not None:
+                try:
+                    confirmed, native = confirm()
+                except Exception as e:
+                    native = "native confirmation raised %s: %s" % (type(e).__name__, e)
+            if confirmed:
+                res.update(status="violated", reason="may write its argument: " + " <- ".join(reversed(wit)), witness=wit, native=native, confirmed=True)
+            else:
+                res.update(status="candidate", reason="frame not provable: the effect analysis finds a possible write into the argument (no generated input shows a change): "
+                           + " <- ".join(reversed(wit))[:600], witness=wit, native=native)
+        elif prm in f.unknown:
+            res.update(status="undecided", reason="unresolved effect: " + f.unknown[prm])
+        else:
+            res.update(status="proved", reason="no write to '%s' reachable (summary over %d functions, %d fix-point rounds)" % (prm, len(prog.funcs), _cache["iters"]))
+        out.append(res)
+    return out
